@@ -8,7 +8,7 @@ Byte strings are tokens (`[id]`); the library functions are tables carried by th
   D  = `id:entry|entry…,…`            data tokens that gunzip+untar; entry = `<hexname>.<kind>.<bodyid>.<rec>`,
                                       kind r|s|d|h|o, rec `-` absent, `!` malformed, else the digest text
   OPS = op;op;…   op = `<l|b>@<0|1>@pkg+pkg…`   pkg = `<hexkey>.<exp>.<fetched>`,
-                                      exp `!` malformed else digest text, fetched `-` or `<sig|->:<ctl>:<dat>`
+                                      exp `!` undecodable, `~<digest>` bare base64 (no `Q1` prefix), else digest text, fetched `-` or `<sig|->:<ctl>:<dat>`
 Requests: `auth.verdict H C D OPS k`  → Impl verdict of op k, Spec verdict, class
           `auth.cache   H C D OPS k`  → advertised cache names after op k (Impl only)
           `auth.class   H C D OPS k`  → `-`, `-`, class (for the byte-level oracle evaluated by the harness)
@@ -65,7 +65,10 @@ def parseApk (s : String) : Option Apk :=
 
 def parsePkg (s : String) : Option PkgReq :=
   match s.splitOn "." with
-  | [k, e, f] => some { key := unhexS k, expected := if e = "!" then none else some e.toList,
+  | [k, e, f] => some { key := unhexS k,
+                        expected := if e = "!" then ⟨none, true⟩
+                                    else if e.startsWith "~" then ⟨some (e.toList.drop 1), false⟩
+                                    else ⟨some e.toList, true⟩,
                         fetched := if f = "-" then none else parseApk f }
   | _ => none
 
